@@ -32,7 +32,9 @@ def const_value(v):
     if isinstance(v, int):
         return '(VInt (%d))' % v
     if isinstance(v, float):
-        return 'VOpaque'                  # a float the fragment does not track (only compared / printed)
+        from fractions import Fraction
+        q = Fraction(repr(v))             # the decimal the programmer wrote (0.02 is 1/50), as in the models
+        return '(VQ (%d # %d))' % (q.numerator, q.denominator)
     if isinstance(v, str):
         return vstr(v)
     if isinstance(v, (list, tuple)):
@@ -85,18 +87,29 @@ class Tr:
         if isinstance(e, ast.UnaryOp) and isinstance(e.op, ast.USub) and isinstance(e.operand, ast.Constant) \
                 and isinstance(e.operand.value, int):
             return '(EConst (VInt (%d)))' % (-e.operand.value)
+        if isinstance(e, ast.UnaryOp) and isinstance(e.op, ast.USub):
+            return '(ESub (EConst (VInt (0))) %s)' % self.expr(e.operand)
         if isinstance(e, ast.BinOp):
-            op = {ast.Add: 'EAdd', ast.Sub: 'ESub', ast.Div: 'EDiv'}.get(type(e.op))
+            op = {ast.Add: 'EAdd', ast.Sub: 'ESub', ast.Mult: 'EMul', ast.Div: 'EDiv'}.get(type(e.op))
             if op is None:
                 raise Untranslatable('operator %s' % type(e.op).__name__)
             return '(%s %s %s)' % (op, self.expr(e.left), self.expr(e.right))
         if isinstance(e, ast.Subscript):
             idx = e.slice
             if isinstance(idx, ast.Slice):
-                raise Untranslatable('slice')
+                if idx.step is not None:
+                    raise Untranslatable('slice step')
+                lo = self.expr(idx.lower) if idx.lower is not None else '(EConst VNone)'
+                hi = self.expr(idx.upper) if idx.upper is not None else '(EConst VNone)'
+                return '(ESlice %s %s %s)' % (self.expr(e.value), lo, hi)
             return '(EIndex %s %s)' % (self.expr(e.value), self.expr(idx))
         if isinstance(e, ast.Call):
             f = e.func
+            if isinstance(f, ast.Attribute) and isinstance(f.value, ast.Name) and f.value.id == 'self':
+                # a call of another method of the object: interpreted by the tie's primitive table
+                name = f.attr + ''.join('|' + k.arg for k in e.keywords)
+                args = [self.expr(a) for a in e.args] + [self.expr(k.value) for k in e.keywords]
+                return '(ECall %s [%s])' % (cstring(name), '; '.join(args))
             if e.keywords:
                 raise Untranslatable('keyword arguments')
             if isinstance(f, ast.Name):
@@ -123,6 +136,8 @@ class Tr:
                     return '(EIsSpace %s)' % self.expr(f.value)
                 if f.attr == 'upper' and not e.args:
                     return '(EUpper %s)' % self.expr(f.value)
+                if f.attr == 'strip' and not e.args:
+                    return '(EStrip %s)' % self.expr(f.value)
                 if f.attr == 'count' and len(e.args) == 1:
                     return '(ECount %s %s)' % (self.expr(f.value), self.expr(e.args[0]))
                 raise Untranslatable('method %s' % f.attr)
@@ -182,6 +197,19 @@ class Tr:
             if s.orelse:
                 raise Untranslatable('for-else')
             return '(SFor %s %s %s)' % (self.target(s.target), self.expr(s.iter), self.block(s.body))
+        if isinstance(s, ast.With):
+            # `with open(filename) as fh: content = fh.readlines()` — the lines of the file are an INPUT of the translated
+            # function (variable "content"); nothing else may happen inside the with-block
+            ok = (len(s.items) == 1 and isinstance(s.items[0].context_expr, ast.Call) and dotted(s.items[0].context_expr.func) == 'open'
+                  and isinstance(s.items[0].optional_vars, ast.Name) and len(s.body) == 1 and isinstance(s.body[0], ast.Assign)
+                  and ast.unparse(s.body[0]) == 'content = %s.readlines()' % s.items[0].optional_vars.id)
+            if not ok:
+                raise Untranslatable('with-statement other than reading all lines into `content`')
+            return 'SSkip'
+        if isinstance(s, ast.While):
+            if s.orelse:
+                raise Untranslatable('while-else')
+            return '(SWhile %s %s)' % (self.expr(s.test), self.block(s.body))
         raise Untranslatable('statement %s' % type(s).__name__)
 
 
@@ -204,12 +232,15 @@ FUNCS = [
     ('g_validateSequence', 'localcider/backend/sequence.py', 'Sequence', 'validateSequence', ['data.aminoacids.', 'aminoacids.']),
     ('g_validSeq', 'localcider/backend/seqfileparser.py', 'SequenceFileParser', '__validSeq', ['']),
     ('g_setPhosPhoSites', 'localcider/backend/sequence.py', 'Sequence', 'setPhosPhoSites', ['data.aminoacids.', 'aminoacids.']),
+    ('g_isoelectric_point', 'localcider/backend/sequence.py', 'Sequence', 'isoelectric_point', []),
+    ('g_final_validation', 'localcider/backend/seqfileparser.py', 'SequenceFileParser', '__final_validation', []),
+    ('g_parseSeqFile', 'localcider/backend/seqfileparser.py', 'SequenceFileParser', 'parseSeqFile', []),
 ]
 
 
 def generate(repo):
     out = Out('GMiniPy', 'localcider/backend/{sequence,seqfileparser}.py (function bodies as Core.MiniPy terms)',
-              ['From Coq Require Import List String Ascii ZArith.', 'From LC Require Import Core.MiniPy.',
+              ['From Coq Require Import List String Ascii ZArith QArith.', 'From LC Require Import Core.MiniPy.',
                'Import ListNotations.', 'Local Open Scope string_scope.'])
     data = literal_dicts(os.path.join(repo, 'localcider/backend/data/aminoacids.py'))
 
